@@ -70,6 +70,37 @@ theorem isunittwist2_spec (S : Vec 3 R) :
   unfold Gen.isunittwist2 nrm2 tol10; simp only []
   split_ifs with h1 h2 h3 <;> simp [h1, *]
 
+/-- isunittwist against its definition: |‖w‖ − 1| < 10 eps, or ‖w‖ < 10 eps and |‖v‖ − 1| < 10 eps — nothing else -/
+theorem isunittwist_spec (S : Vec 6 R) :
+    Gen.isunittwist P S = .ok (decide (|nrm3 P (v3 (S 3) (S 4) (S 5)) - 1| < tol10 ∨
+      (nrm3 P (v3 (S 3) (S 4) (S 5)) < tol10 ∧ |nrm3 P (v3 (S 0) (S 1) (S 2)) - 1| < tol10))) := by
+  unfold Gen.isunittwist nrm3 tol10; simp only [v3_0, v3_1, v3_2]
+  split_ifs with h1 h2 h3 <;> simp [h1, *]
+
+/-- a twist with unit translational part whose rotational part is neither (numerically) zero nor unit is not a unit twist -/
+theorem isunittwist_unit_v_only (S : Vec 6 R) (hw1 : ¬ |nrm3 P (v3 (S 3) (S 4) (S 5)) - 1| < tol10) (hw0 : ¬ nrm3 P (v3 (S 3) (S 4) (S 5)) < tol10) :
+    Gen.isunittwist P S = .ok false := by
+  rw [isunittwist_spec]; simp [hw1, hw0]
+
+/-- exact unit twists are accepted: ‖w‖ = 1, or w = 0 and ‖v‖ = 1 (under the square-root law) -/
+theorem isunittwist_exact (hs : P.Sqrt) (S : Vec 6 R)
+    (h : S 3 * S 3 + S 4 * S 4 + S 5 * S 5 = 1 ∨ (S 3 = 0 ∧ S 4 = 0 ∧ S 5 = 0 ∧ S 0 * S 0 + S 1 * S 1 + S 2 * S 2 = 1)) :
+    Gen.isunittwist P S = .ok true := by
+  have s1 : P.sqrt 1 = 1 := by
+    have h1 := hs.mul_self 1 (by norm_num); have h0 := hs.nonneg 1
+    have : (P.sqrt 1 - 1) * (P.sqrt 1 + 1) = 0 := by linear_combination h1
+    rcases mul_eq_zero.mp this with e | e
+    · linarith
+    · exfalso; linarith
+  have s0 : P.sqrt 0 = 0 := mul_self_eq_zero.mp (hs.mul_self 0 (le_refl 0))
+  rw [isunittwist_spec]
+  rcases h with h | ⟨a, b, c, hv⟩
+  · have : nrm3 P (v3 (S 3) (S 4) (S 5)) = 1 := by unfold nrm3; simp only [v3_0, v3_1, v3_2]; rw [h, s1]
+    simp [this, tol10]
+  · have hw : nrm3 P (v3 (S 3) (S 4) (S 5)) = 0 := by unfold nrm3; simp only [v3_0, v3_1, v3_2]; rw [a, b, c]; simpa using s0
+    have hvn : nrm3 P (v3 (S 0) (S 1) (S 2)) = 1 := by unfold nrm3; simp only [v3_0, v3_1, v3_2]; rw [hv, s1]
+    simp [hw, hvn, tol10]
+
 /-- removesmall zeroes exactly the entries below 100 eps and keeps the others -/
 theorem removesmall3_spec (v u : Vec 3 R) (h : Gen.removesmall3 P v = .ok u) :
     ∀ i, u i = if |v i| < tol100 then 0 else v i := by
